@@ -361,6 +361,10 @@ func cmdScn(args []string) int {
 	}
 	version, _ := strconv.Atoi(args[2])
 	seed, _ := strconv.ParseUint(args[3], 10, 64)
+	if os.Getenv("OAP_HOOK_LOG") == "0" {
+		// race-detector runs: the hook log's mutex would add happens-before edges between the very goroutines under observation
+		verifhook.SetLogging(false)
+	}
 	if u := os.Getenv("OAP_UNIT_MS"); u != "" {
 		if ms, err := strconv.Atoi(u); err == nil && ms > 0 {
 			unit = time.Duration(ms) * time.Millisecond
